@@ -620,6 +620,12 @@ def r_step_part_kinds(ck: Checker, modname: str = XP, rule: str = "R-XP-ELEMENTS
             return [a for v in e.values for a in arms(v)]
         return [e]
     what = "XPathTransformer.index_spec returns an int on every path (element() recognises the index part of a step by its type)"
+    consts_ = {st.targets[0].id: st.value for st in ck.repo.mod(modname).tree.body if isinstance(st, ast.Assign) and len(st.targets) == 1 and isinstance(st.targets[0], ast.Name)}
+    consts_.update({st.target.id: st.value for st in ck.repo.mod(modname).tree.body if isinstance(st, ast.AnnAssign) and isinstance(st.target, ast.Name) and st.value is not None})
+    _arms0 = arms
+
+    def arms(e: ast.expr) -> list[ast.expr]:  # type: ignore[no-redef]
+        return [consts_.get(a.id, a) if isinstance(a, ast.Name) else a for a in _arms0(e)]
     rets = [r for r in ast.walk(ix) if isinstance(r, ast.Return)]
     bad = None
     unknown = None
